@@ -306,7 +306,8 @@ class GraphQLSchema:
             extensions=deepcopy(self.extensions),
             ast_node=deepcopy(self.ast_node),
             extension_ast_nodes=deepcopy(self.extension_ast_nodes),
-            assume_valid=True,
+            # the copy is known to be valid only if the original is
+            assume_valid=self._validation_errors == [],
         )
 
     def get_root_type(self, operation: OperationType) -> GraphQLObjectType | None:
